@@ -76,3 +76,15 @@ package streams
 //@   requires stdin != nil && stdin.ctx != nil
 //@   ghost at unlock 3: stdin.$rlen = stdin.$rlen + len(old@lock3(stdin.buffer))
 //@   ensures result1 == nil
+// the bytes handed out belong to the caller: the pipe's (new) buffer does not share memory with them,
+// so nothing written later can change what was delivered
+//@   ensures disjoint(result, stdin.buffer)
+
+// ReadFrom (io.Copy into the pipe): every chunk read from the source is written to the pipe before the
+// function looks at EOF - the chunk that arrives together with io.EOF included - and the count returned
+// is the sum of the chunks written.
+//@ func (*Stdin).ReadFrom [C01]
+//@   check none
+//@   requires stdin != nil
+//@   at call (*Stdin).Write#1 assert arg0 == stdin && len(arg1) == i && (rErr == nil || rErr == io.EOF)
+//@   at return #4 assert result1 == nil && rErr == io.EOF && wErr == nil && result == old@loop1(total) + i
